@@ -78,8 +78,8 @@ func c06Parse(src []rune, preempt int) {
 	nd.Assert(used1 == used0, "the amount of input consumed is the same under every interleaving")
 }
 
-func C06_Err_P1() { c06Parse([]rune(ErrTemplates[nd.Choice(len(ErrTemplates))]), 1) }
-func C06_Err_P2() { c06Parse([]rune(ErrTemplates[nd.Choice(len(ErrTemplates))]), 2) }
+func C06_Err_P1()   { c06Parse([]rune(ErrTemplates[nd.Choice(len(ErrTemplates))]), 1) }
+func C06_Err_P2()   { c06Parse([]rune(ErrTemplates[nd.Choice(len(ErrTemplates))]), 2) }
 func C06_Parse_P1() { c06Parse([]rune(c06Sources[nd.Choice(len(c06Sources))]), 1) }
 func C06_Parse_P2() { c06Parse([]rune(c06Sources[nd.Choice(len(c06Sources))]), 2) }
 func C06_Parse_P3() { c06Parse([]rune(c06Sources[nd.Choice(len(c06Sources))]), 3) }
